@@ -35,6 +35,7 @@ var predSpecs = []predSpec{
 	{"langserver/check/compiler/lexer", "isLetter", "", "isLetter"},
 	{"langserver/check/compiler/lexer", "isHexDigit", "", "isHexDigit"},
 	{"langserver/check/common", "isInLocation", "", "isInLocation"},
+	{"langserver/check/common", "MakeVarIndex", "", "makeVarIndex"},
 	{"langserver/lspcommon", "LocToRange", "", "locToRange"},
 	{"langserver/check/compiler/parser", "_isFieldSep", "", "isFieldSep"},
 }
@@ -190,7 +191,7 @@ func leanType(e ast.Expr) (string, string) {
 			return "GLoc", "loc"
 		case "Token":
 			return "GTok", "tok"
-		case "int", "uint32":
+		case "int", "uint32", "uint8":
 			return "Int", "int"
 		case "byte":
 			return "Int", "byte"
